@@ -33,6 +33,11 @@ impl StateMachine<'_> {
         // .to_owned()s.
         let mut handled_line = false;
         self.painter.emit()?;
+        // --color-only promises one output line per input line showing the input text; blame
+        // rendering rewrites lines (as for grep output).
+        if self.config.color_only {
+            return Ok(false);
+        }
         let (previous_key, try_parse) = match &self.state {
             State::Blame(key) => (Some(key.clone()), true),
             State::Unknown => (None, true),
